@@ -12,12 +12,15 @@ P = {'id': 'C07',
               'bump_live_disjoint_within',
               'bump_alloc_aligned',
               'bump_refuses_over_capacity',
-              'bump_align_refuted'],
+              'bump_align_refuted',
+              'fixedcap_live_disjoint_within'],
  'trusted': ['modelled (M+S): src/memory/lockfree_pool.rs (allocate, deallocate, allocate_from_fast_bin, deallocate_to_fast_bin, allocate_new_block, '
              'size_to_bin_index, align_size, ptr_to_offset; FAST_BIN_SIZES is read from the source by the harness and compared with the model table in every '
              'Coq-evaluated case), sequential semantics, free lists as stacks of offsets; src/memory/bump.rs (alloc_bytes, BumpScope drop) with the buffer '
              'base address as a parameter. Both in two variants: the pinned code (refutation theorems) and the code after the fix: commits (positive theorems)',
-             'spec-only cells (direct oracle with shadow map of live ranges and per-block patterns, no mechanism model): FixedCapacityMemoryPool, '
+             'modelled (M+S): src/memory/fixed_capacity_pool.rs (generate_size_classes, find_size_class, allocate_from_free_list, allocate_by_splitting, '
+             'deallocate_to_free_list, initial free list) with free lists as stacks of block offsets',
+             'spec-only cells (direct oracle with shadow map of live ranges and per-block patterns, no mechanism model): '
              'ThreadLocalMemoryPool, SecureMemoryPool, MemoryPool/PooledBuffer/PooledVec, TieredMemoryAllocator, MemoryMappedAllocator, numa_alloc_aligned, '
              'HugePageAllocator, five-level family (NoLocking/Mutex/LockFree/ThreadLocal/FixedCapacity/Adaptive: offsets only - the memory behind a MemOffset '
              'is not reachable through the public API, so contents are not checked there)',
